@@ -31,6 +31,8 @@ impl IndexCatalog {
                 let mut buf = [0u8; PAGE_SIZE];
                 init_empty_catalog_page(&mut buf);
                 pager.write_page(p, &buf)?;
+                // the catalog page must be durable before the meta page points to it
+                pager.sync()?;
                 pager.set_index_catalog_root(Some(p))?;
                 p
             }
@@ -61,12 +63,15 @@ impl IndexCatalog {
 
         let id = pager.allocate_index_id()?;
         let tree = BTree::create(pager)?;
+        // the new root page must be durable before the catalog page points to it
+        pager.sync()?;
         let def = IndexDef {
             id,
             root: tree.root(),
         };
         self.entries.insert(name.to_string(), def.clone());
         self.flush(pager)?;
+        pager.sync()?;
         Ok(def)
     }
 
